@@ -394,6 +394,14 @@ func c03Client(c *Ctx, key []byte, cs c03Case) {
 	conn.Feed(ref.Packet(ah, key, answerClear))
 	cl := tq.VerifNewClient(conn, key)
 	p := tq.NewPacket(tq.SetPacketHeader(implHeader(h)), tq.SetPacketBody(append([]byte{}, clear...)))
+	// the writer owns the length field: whatever stale value the caller left there (a reused header, a struct
+	// literal) must not influence the pad or the bytes on the wire
+	switch cs.N % 3 {
+	case 1:
+		p.Header.Length = 0
+	case 2:
+		p.Header.Length = uint32(cs.N / 2)
+	}
 	var got *tq.Packet
 	var err error
 	pn, hung := guarded(func() { got, err = cl.Send(p) })
